@@ -1,5 +1,6 @@
 import PolyVerif.Model.Genbank
 import PolyVerif.Spec.GbLayout
+import PolyVerif.Model.Location
 /-
 Driver for C01.  An abstract case is one protocol line
 
@@ -131,7 +132,7 @@ def serPairs (m : List (Str × Str)) : List String :=
 
 def ser (q : Genbank.Sequence) : List String :=
   let l := q.md.locus
-  [s q.seq, s l.name, s l.seqLength, s l.molType, boolStr l.circular, boolStr l.linear, s l.division, s l.date,
+  [s q.seq, s l.name, s l.seqLength, s l.coding, s l.molType, boolStr l.circular, boolStr l.linear, s l.division, s l.date,
    s q.md.definition, s q.md.accession, s q.md.version, s q.md.keywords, s q.md.source, s q.md.organism,
    toString q.md.references.length]
   ++ q.md.references.flatMap (fun r => [s r.index, s r.range, s r.authors, s r.title, s r.journal, s r.pubmed, s r.remark])
@@ -144,12 +145,45 @@ def serOutcome : Outcome (List Genbank.Sequence) → List String
   | .err => ["err"]
   | .panic => ["panic"]
 
-def modelOut (mode : String) (text : Str) : List String :=
+/-- `parseLocation` (property C02's model) panics on this location text -/
+def locPanics (loc : Str) : Bool := match Location.parseLocation loc with | .panic => true | _ => false
+
+/-- some `FEATURES` line of the text is followed by a feature whose location text makes `parseLocation`
+panic: `Genbank.parse` leaves that call to C02's model, in Go it is a panic of `Parse` -/
+def locPanicInLines : List Str → Bool
+  | [] => false
+  | line :: sub =>
+    (trimSpace (Genbank.headOf (split line c!" ")) == c!"FEATURES"
+        && (match Genbank.getFeatures sub with | .ok fs => fs.any (fun f => locPanics f.gbkLoc) | _ => false))
+      || locPanicInLines sub
+
+def locPanicIn (text : Str) : Bool := locPanicInLines (split text c!"\n")
+
+/-- the pieces `ParseMulti` hands to `Parse` -/
+def multiPieces (file : Str) : List Str :=
+  let fs := splitAfter file c!"//\n"
+  if !hasSuffix (trimSpace (fs.getLastD [])) c!"//" then fs.dropLast else fs
+
+def flatBody (file : Str) : Str := join c!"\n" ((split file c!"\n").drop 10)
+
+/-- the model's reply with the panic parity of `parseLocation` -/
+def withLocPanic (texts : List Str) (m : List String) : List String :=
+  if m.headD "" == "ok" && texts.any locPanicIn then ["panic"] else m
+
+def modelOutRaw (mode : String) (text : Str) : List String :=
   match mode with
   | "parse" | "read" => serOutcome ((Genbank.parse text).map ([·]))
   | "multi" | "readmulti" => serOutcome (Genbank.parseMulti text)
   | "flat" | "readflat" | "readflatgz" => serOutcome (Genbank.parseFlat text)
   | _ => ["bad"]
+
+def modelOut (mode : String) (text : Str) : List String :=
+  let m := modelOutRaw mode text
+  match mode with
+  | "parse" | "read" => withLocPanic [text] m
+  | "multi" | "readmulti" => withLocPanic (multiPieces text) m
+  | "flat" | "readflat" | "readflatgz" => withLocPanic (multiPieces (flatBody text)) m
+  | _ => m
 
 def zipLay (rs : List GbRec) (ls : List RecLayout) : List (GbRec × RecLayout) :=
   match rs with
@@ -180,7 +214,10 @@ def judge (f out : List String) : Verdict :=
       && pairs.all (fun p => noSlashEnd p.1 p.2)
     let nfeat := (c.recs.map (·.features.length)).sum
     let multiloc := pairs.any (fun p => (zipF p.1.features p.2.feats).any (fun q => (cutLoc q.2.loc q.1.loc).length > 1))
-    let kf := if c.recs.any repeatedQualKey then " kf:C01-repeated-qualifier-key" else ""
+    -- the known finding is tagged only when the reply is exactly what it predicts: every record as the record states it,
+    -- except that of a repeated qualifier key the last value is kept (`toSequenceM`); anything else is a plain FAIL
+    let lastWins := serOutcome (.ok (c.recs.map toSequenceM))
+    let kf := if c.recs.any repeatedQualKey && outN == lastWins then " kf:C01-repeated-qualifier-key" else ""
     let triv := if nfeat == 0 && c.recs.all (fun r => r.refs.isEmpty) then "triv:" else ""
     let cls := triv ++ c.mode ++ "/r" ++ toString c.recs.length
       ++ (if c.lay.finalNewline then "/nl" else "/nonl")
